@@ -1,5 +1,6 @@
 import VpnCloud.Model.Node
 import VpnCloud.Proofs.Lemmas.NodeInvLemmas
+import VpnCloud.Proofs.Lemmas.RotPanicLemmas
 /-
   C08 at node level, over ALL histories: no operation of the node panics.
 
@@ -10,6 +11,12 @@ import VpnCloud.Proofs.Lemmas.NodeInvLemmas
     on the ideal AEAD.  Nothing the receiving node does excludes it: from a well-formed state, a 24-byte datagram that
     opens as the seal of the EMPTY plaintext under the session key panics (example at the end) — only the holder of the
     session key can produce it;
+  * `derive_key(..).unwrap()` in `RotationState::process_message` (`PeerCrypto.rotatePanics`, checked by `PeerCrypto.handleMessage`
+    before `handleRotate`): X25519 agreement fails on a peer key that is not 32 bytes long, and `RotationMessage::read_from` accepts
+    any key length.  Excluded by the hypothesis `ValidRotKeys` on the ideal AEAD (what opens as a genuine seal of a ROTATION message
+    carries 32-byte keys).  Again nothing the receiving node does excludes it: from a well-formed state, a datagram that opens as the
+    seal of a rotation message with a 5-byte proposed key panics (example at the end; `Proofs/RotPanic.lean`: `keyholder_can_panic`) —
+    only the holder of the session key can produce it (`RotPanic.panic_needs_session_seal`, `RotPanic.outsider_cannot_reach_site`);
   * the interval expression of `housekeep`: never panics, for every configuration and every advertised peer timeout
     (`C15.interval_safe`), so no range condition on the configuration is needed;
   * the `.inl none` branch of the stage check in `handleInit` is syntactically dead; `every_second` has no panic site.
@@ -22,6 +29,8 @@ import VpnCloud.Proofs.Lemmas.NodeInvLemmas
   `NonEmptySeals` also speaks about the seals of honest nodes (payload and rotation messages, and the handshake payload
   sealed in pong / peng).  The last section proves that a node of this model never produces an empty seal
   (`own_seals_nonempty`), so the hypothesis is consistent with every run in which all key holders run this code.
+  Likewise `ValidRotKeys`: every rotation message the session layer seals is written from 32-byte keys
+  (`RotPanic.own_rotation_messages_valid`, at session level).
 -/
 namespace VpnCloud.Proofs.C08Node
 
@@ -32,6 +41,13 @@ open VpnCloud.Proofs.NodeLemmas VpnCloud.Proofs.NodeLemmas2 VpnCloud.Proofs.Node
 abbrev NonEmptySeals (bodyOf : Init.BodyOf) : Prop := NodeInvLemmas.NonEmptySeals bodyOf
 
 example (bodyOf : Init.BodyOf) : NonEmptySeals bodyOf ↔ ∀ ct k n p, bodyOf ct = .sealed k n p → p ≠ [] := Iff.rfl
+
+/-- hypothesis on the ideal AEAD: what opens as a genuine seal of a ROTATION message carries X25519 public keys, i.e. if its body parses
+    (`RotationMessage::read_from`) the proposed key and the confirmed key (if present) have exactly 32 bytes -/
+abbrev ValidRotKeys (bodyOf : Init.BodyOf) : Prop := NodeInvLemmas.ValidRotKeys bodyOf
+
+example (bodyOf : Init.BodyOf) : ValidRotKeys bodyOf ↔ ∀ ct k n body, bodyOf ct = .sealed k n (Generated.MESSAGE_TYPE_ROTATION :: body) →
+    ∀ bm, Codec.readRotMsg body = some bm → bm.propose.length = 32 ∧ ∀ c, bm.confirm = some c → c.length = 32 := Iff.rfl
 
 /-- well-formed sessions: a pending handshake that awaits a pong holds its ephemeral key; the handshake object of an established peer
     (if it still has one) does not await a pong -/
@@ -70,14 +86,14 @@ theorem wf_iff (c : Ctx) : (c.panicked = false ∧ NodeWF c.node) ↔ GI SB c :=
   · rintro ⟨hq, hr, _, hp, _⟩
     exact ⟨hp trivial, fun a pc hm => hq a pc hm (by simp), hr⟩
 
-theorem sok (env : CryptoEnv) (bodyOf : Init.BodyOf) (hb : NonEmptySeals bodyOf) (pc : PeerCrypto) (inPeers : Bool) (data tail : Bytes)
+theorem sok (env : CryptoEnv) (bodyOf : Init.BodyOf) (hb : NonEmptySeals bodyOf) (hv : ValidRotKeys bodyOf) (pc : PeerCrypto) (inPeers : Bool) (data tail : Bytes)
     (rnd : Rand) (rr : RotRand) (h : if inPeers then SB.R pc else SB.Q pc) :
     SOK SB inPeers (PeerCrypto.handleMessage env bodyOf payloadOk pc data tail rnd rr) := by
   have hpend : PendOK pc := by
     cases inPeers with
     | true => exact PeerOK.pendOK h
     | false => exact h
-  have hg := handleMessage_good env bodyOf payloadOk pc data tail rnd rr hb hpend
+  have hg := handleMessage_good env bodyOf payloadOk pc data tail rnd rr hb hv hpend
   generalize PeerCrypto.handleMessage env bodyOf payloadOk pc data tail rnd rr = r at hg
   refine { no_panic := ?_, err_peers := ?_, err_pend := ?_, ok_peers := ?_, ok_pend := ?_, msg := fun hf => hf.elim, log_ok := fun hf => hf.elim }
   · intro _ hr
@@ -124,11 +140,11 @@ theorem tok (pc : PeerCrypto) (rr : RotRand) :
 /-! ## no operation panics, and each keeps the sessions well-formed -/
 
 theorem handleNet_no_panic (env : CryptoEnv) (bodyOf : Init.BodyOf) (o : Oracle) (n : Node) (now : Int) (src : NAddr) (data tail : Bytes)
-    (hwf : NodeWF n) (hb : NonEmptySeals bodyOf) :
+    (hwf : NodeWF n) (hb : NonEmptySeals bodyOf) (hv : ValidRotKeys bodyOf) :
     (Node.handleNet env bodyOf o n now src data tail).1.panicked = false ∧ NodeWF (Node.handleNet env bodyOf o n now src data tail).1.node := by
   rw [wf_iff]
   exact handleNet_GI SB env bodyOf o n now src data tail ((wf_iff { node := n }).1 ⟨rfl, hwf⟩)
-    (fun pc inPeers rnd rr hpc => sok env bodyOf hb pc inPeers data tail rnd rr hpc) (fun hf => hf.elim)
+    (fun pc inPeers rnd rr hpc => sok env bodyOf hb hv pc inPeers data tail rnd rr hpc) (fun hf => hf.elim)
 
 theorem handleIface_no_panic (o : Oracle) (n : Node) (now : Int) (data : Bytes) (hwf : NodeWF n) :
     (Node.handleIface o n now data).panicked = false ∧ NodeWF (Node.handleIface o n now data).node := by
@@ -151,7 +167,7 @@ theorem connect_no_panic (env : CryptoEnv) (o : Oracle) (n : Node) (addrs : List
     the network's view of ciphertexts is only required to have non-empty genuine seals -/
 inductive Step : Node → Ctx → Prop
   | net (env : CryptoEnv) (bodyOf : Init.BodyOf) (o : Oracle) (n : Node) (now : Int) (src : NAddr) (data tail : Bytes) :
-      NonEmptySeals bodyOf → Step n (Node.handleNet env bodyOf o n now src data tail).1
+      NonEmptySeals bodyOf → ValidRotKeys bodyOf → Step n (Node.handleNet env bodyOf o n now src data tail).1
   | iface (o : Oracle) (n : Node) (now : Int) (data : Bytes) : Step n (Node.handleIface o n now data)
   | tick (env : CryptoEnv) (o : Oracle) (n : Node) (now : Int) : Step n (Node.housekeep env o n now)
   | dial (env : CryptoEnv) (o : Oracle) (n : Node) (addrs : List NAddr) : Step n (Node.connect env o { node := n } addrs)
@@ -162,7 +178,7 @@ inductive Reach (n0 : Node) : Node → Prop
 
 theorem step_no_panic {n : Node} {c : Ctx} (h : NodeWF n) (hs : Step n c) : c.panicked = false ∧ NodeWF c.node := by
   cases hs with
-  | net env bodyOf o _ now src data tail hb => exact handleNet_no_panic env bodyOf o n now src data tail h hb
+  | net env bodyOf o _ now src data tail hb hv => exact handleNet_no_panic env bodyOf o n now src data tail h hb hv
   | iface o _ now data => exact handleIface_no_panic o n now data h
   | tick env o _ now => exact housekeep_no_panic env o n now h
   | dial env o _ addrs => exact connect_no_panic env o n addrs h
@@ -388,6 +404,59 @@ example : NodeWF n1 ∧ (handleNet Toy.env emptySeal o0 n1 100 s dgram24 []).1.p
     simp only [n1, List.mem_singleton, Prod.mk.injEq] at hm
     obtain ⟨_, rfl⟩ := hm
     cases hi
+
+/-- a node whose established peer has a rotation state (the one of the handshake initiator: id 0, nothing proposed) -/
+private def n2 : Node :=
+  { n0 with
+    peers := [(s, { addrs := [], timeout := 1000, peerTimeout := 300, nodeId := List.replicate 16 1,
+                    crypto := { init := none, core := some (Core.new 5 false 1 []), rot := some (PeerCrypto.initSide false 0) } })] }
+
+private theorem n2_wf : NodeWF n2 := by
+  constructor
+  · intro a pc hm; cases hm
+  · intro a p hm i hi
+    simp only [n2, List.mem_singleton, Prod.mk.injEq] at hm
+    obtain ⟨_, rfl⟩ := hm
+    cases hi
+
+/-- `ValidRotKeys` is needed: if the peer that holds the session key seals a ROTATION message with id 1 whose proposed key has FIVE bytes
+    (plaintext `10 | 00 00 00 00 00 00 00 01 | 05 | 01 02 03 04 05 | 00`), the receiving node opens it and panics in
+    `derive_key(private_key, msg.propose)` — from a well-formed state, and although no genuine seal is empty -/
+private def shortKey : Init.BodyOf := fun _ => .sealed 5 (HALF + 5) [Generated.MESSAGE_TYPE_ROTATION, 0, 0, 0, 0, 0, 0, 0, 1, 5, 1, 2, 3, 4, 5, 0]
+
+example : NodeWF n2 ∧ NonEmptySeals shortKey ∧ ¬ ValidRotKeys shortKey ∧ (handleNet Toy.env shortKey o0 n2 100 s dgram24 []).1.panicked = true := by
+  refine ⟨n2_wf, ?_, ?_, by decide⟩
+  · intro ct k n p h
+    simp only [shortKey, Body.sealed.injEq] at h
+    rw [← h.2.2]; decide
+  · intro hv
+    have h := hv [] 5 (HALF + 5) [0, 0, 0, 0, 0, 0, 0, 1, 5, 1, 2, 3, 4, 5, 0] rfl ⟨1, [1, 2, 3, 4, 5], none⟩ (by decide)
+    exact absurd h.1 (by decide)
+
+/-- non-vacuity of `NonEmptySeals` and `ValidRotKeys` together: an AEAD view with a genuine seal of a rotation message as `write_to` writes
+    it (id 1, public key number 5) satisfies both, and the node hands it to `handle_rotate_message` without panic -/
+private def goodRot : Init.BodyOf := fun ct =>
+  if ct = List.replicate 16 170 then .sealed 5 (HALF + 5) (Generated.MESSAGE_TYPE_ROTATION :: Codec.writeRotMsg (PeerCrypto.rotMsgToBytes ⟨1, 5, none⟩))
+  else .garbage ct.length
+
+example : NonEmptySeals goodRot ∧ ValidRotKeys goodRot ∧ NodeWF n2 ∧ (handleNet Toy.env goodRot o0 n2 100 s dgram24 []).1.panicked = false ∧
+    (handleNet Toy.env goodRot o0 n2 100 s dgram24 []).2 = none := by
+  have h1 : NonEmptySeals goodRot := by
+    intro ct k n p h
+    unfold goodRot at h
+    split at h
+    · simp only [Body.sealed.injEq] at h
+      rw [← h.2.2]; simp
+    · cases h
+  have h2 : ValidRotKeys goodRot := by
+    intro ct k n body h
+    unfold goodRot at h
+    split at h
+    · simp only [Body.sealed.injEq, List.cons.injEq, true_and] at h
+      rw [← h.2.2]
+      exact VpnCloud.Proofs.RotPanicLemmas.written_keysOK _
+    · cases h
+  exact ⟨h1, h2, n2_wf, (handleNet_no_panic Toy.env goodRot o0 n2 100 s dgram24 [] n2_wf h1 h2).1, by decide +kernel⟩
 
 /-- the seal log is not trivially empty: a broadcast frame is sealed once for the peer, and the logged plaintext is `type :: frame` -/
 example : (handleIface o0 { n1 with cfg := { cfg0 with broadcast := true } } 100 (69 :: (List.replicate 11 0 ++ [10, 0, 0, 1, 10, 0, 0, 2]))).log.map (·.2) =
